@@ -20,6 +20,10 @@ front!(tests_nostd_compact_alloc, ml_nostd_compact_alloc, "front_tests.rs");
 front!(golang_default, ml_default, "front_golang.rs");
 front!(golang_alloc, ml_alloc, "front_golang.rs");
 
+front!(rng_tests_default, ml_default, "front_rng_tests.rs");
+front!(parse_random_compact, ml_compact, "front_parse_random.rs");
+front!(unittests_alloc, ml_alloc, "front_unittests.rs");
+
 pub struct Front {
     pub name: &'static str,
     pub source: &'static str,
@@ -30,7 +34,7 @@ pub struct Front {
     pub f64: for<'a> fn(&'a [u8]) -> (f64, &'a [u8]),
 }
 
-pub static FRONTS: [Front; 8] = [
+pub static FRONTS: [Front; 11] = [
     Front { name: "examples/simple.rs [default]", source: "examples/simple.rs", config: "default", specials: false, f32: simple_default::verif_entry_f32, f64: simple_default::verif_entry_f64 },
     Front { name: "examples/simple.rs [compact]", source: "examples/simple.rs", config: "compact", specials: false, f32: simple_compact::verif_entry_f32, f64: simple_compact::verif_entry_f64 },
     Front { name: "fuzz/fuzz_targets/parse.rs [default]", source: "fuzz/fuzz_targets/parse.rs", config: "default", specials: true, f32: fuzz_default::verif_entry_f32, f64: fuzz_default::verif_entry_f64 },
@@ -39,4 +43,7 @@ pub static FRONTS: [Front; 8] = [
     Front { name: "tests/integration_tests.rs [no_std+compact+alloc]", source: "tests/integration_tests.rs", config: "no_std+compact+alloc", specials: true, f32: tests_nostd_compact_alloc::verif_entry_f32, f64: tests_nostd_compact_alloc::verif_entry_f64 },
     Front { name: "etc/correctness/test-parse-golang/main.rs [default]", source: "etc/correctness/test-parse-golang/main.rs", config: "default", specials: false, f32: golang_default::verif_entry_f32, f64: golang_default::verif_entry_f64 },
     Front { name: "etc/correctness/test-parse-golang/main.rs [alloc]", source: "etc/correctness/test-parse-golang/main.rs", config: "alloc", specials: false, f32: golang_alloc::verif_entry_f32, f64: golang_alloc::verif_entry_f64 },
+    Front { name: "etc/correctness/rng-tests/_common.rs [default]", source: "etc/correctness/rng-tests/_common.rs", config: "default", specials: false, f32: rng_tests_default::verif_entry_f32, f64: rng_tests_default::verif_entry_f64 },
+    Front { name: "etc/correctness/test-parse-random/_common.rs [compact]", source: "etc/correctness/test-parse-random/_common.rs", config: "compact", specials: false, f32: parse_random_compact::verif_entry_f32, f64: parse_random_compact::verif_entry_f64 },
+    Front { name: "etc/correctness/test-parse-unittests/main.rs [alloc]", source: "etc/correctness/test-parse-unittests/main.rs", config: "alloc", specials: false, f32: unittests_alloc::verif_entry_f32, f64: unittests_alloc::verif_entry_f64 },
 ];
